@@ -62,6 +62,9 @@ func (g *gen) chanOut(name string, typ types.Type) (types.Type, types.ChanDir, e
 	if !ok {
 		return nil, types.SendRecv, fmt.Errorf("%s is not a channel: %s", name, typ)
 	}
+	if chanType.Dir() == types.SendOnly {
+		return nil, types.SendRecv, fmt.Errorf("%s, the argument, %s, is a send only channel, which cannot be received from", name, typ)
+	}
 	return chanType.Elem(), chanType.Dir(), nil
 }
 
@@ -77,7 +80,7 @@ func (g *gen) Generate(typs []types.Type) error {
 	if dir == types.RecvOnly {
 		dirstr = "<-"
 	}
-	typstr := g.TypeString(elemTyp)
+	typstr := derive.ChanElemString(elemTyp, g.TypeString(elemTyp))
 	p.P("")
 	p.P("// %s duplicates messages received on c to both c1 and c2.", name)
 	p.P("func %s(c %schan %s) (c1, c2 <-chan %s) {", name, dirstr, typstr, typstr)
